@@ -1162,10 +1162,12 @@ def run_B(unit, tier, res):
             pairs = [list(c) for c in itertools.combinations(ents, 2)]
         else:
             pairs = b_prefix_pairs(unit["variant"])
+        if tier == "quick" and unit["filtered"]:
+            pairs = []                      # quick: several simultaneous entries only in the unfiltered units
         for p in pairs:                     # both iteration orders of the deny table
             sets.append((p, [0, 1]))
             sets.append((p, [1, 0]))
-        triples = b_prefix_triples(unit["variant"], tier)
+        triples = b_prefix_triples(unit["variant"], tier) if not (tier == "quick" and unit["filtered"]) else []
         for t in triples:                   # all six iteration orders
             for perm in itertools.permutations(range(3)):
                 sets.append((t, list(perm)))
@@ -1480,7 +1482,7 @@ def c2_cases(root, tier, links):
     paths = [p for p in all_paths(SEG, 1, n) if os.path.isfile(os.path.join(root, p))]
     fk = [(f, k) for f in C_FILE_FACTORIES for k in KINDS]
     for p in paths:
-        for sa in C2_SAVE_AS:
+        for sa in (C2_SAVE_AS if tier == "thorough" else C2_SAVE_AS[:2]):     # quick: none and `x`
             for fa, ka in fk:
                 for fb, kb in fk:
                     yield {"part": "C2", "links": links,
@@ -1528,8 +1530,9 @@ def c_cases_other(tier, family):
         for toks in enumx.strings(CMD_TOKENS, n, 1):
             if all(t == " " for t in toks):
                 continue            # "/bin/echo " followed by blanks only: same command as shorter ones after shlex
+            sas = SAVE_AS if (tier == "thorough" or len(toks) <= 2) else [None]      # quick: save_as forms for <= 2 tokens
             for f in ("simple_command", "command_with_args", "foreach_execute", "container_execute"):
-                for sa in (SAVE_AS if f in ("simple_command", "command_with_args") else [None]):
+                for sa in (sas if f in ("simple_command", "command_with_args") else [None]):
                     yield {"part": "C", "links": [], "family": "command", "factory": f, "save_as": sa, "tokens": list(toks)}
             if len(toks) == 1:
                 for cid in CIDS[1:]:
